@@ -13,6 +13,8 @@ mod prattk;
 mod proc;
 mod props;
 mod rng;
+mod san;
+mod track;
 mod val;
 
 use std::time::Instant;
@@ -61,10 +63,15 @@ fn main() {
                 "C09" => props::c09::run(&cx),
                 "C10" => props::c10::run(&cx),
                 "C11" => props::c11::run(&cx),
+                "C12" => props::c12::run(&cx),
+                "C13" => props::c13::run(&cx),
+                "C14" => props::c14::run(&cx),
                 "C15" => props::c15::run(&cx),
                 "C16" => props::c16::run(&cx),
                 "C17" => props::c17::run(&cx),
                 "C18" => props::c18::run(&cx),
+                "C19" => props::c19::run(&cx),
+                "C20" => props::c20::run(&cx),
                 other => {
                     eprintln!("unknown property {}", other);
                     3
@@ -76,12 +83,31 @@ fn main() {
             // work that may kill the process; see proc.rs
             let code = match args.get(2).map(|s| s.as_str()) {
                 Some("c11-leftrec") => props::c11::child_leftrec(args[3].parse().unwrap_or(6)),
+                Some("c12-depth") => props::c12::child_depth(&args[3..]),
+                Some("c20") => props::c20::child(&args[3..]),
                 other => {
                     eprintln!("unknown child job {:?}", other);
                     3
                 }
             };
             std::process::exit(code);
+        }
+        Some("job") => {
+            // cvh job <name> <size> <seed> <shard> : in-process slice of a driver for the sanitizer builds
+            let size: usize = args.get(3).and_then(|s| s.parse().ok()).unwrap_or(4);
+            let seed: u64 = args.get(4).and_then(|s| s.parse().ok()).unwrap_or(0);
+            let shard: usize = args.get(5).and_then(|s| s.parse().ok()).unwrap_or(0);
+            let v = match args.get(2).map(|s| s.as_str()) {
+                Some("c12") => props::c12::san_job(size, seed, shard),
+                Some("c13") => props::c13::san_job(size, seed, shard),
+                Some("c19") => props::c19::san_job(size, seed, shard),
+                Some("c20") => props::c20::san_job(size, seed, shard),
+                other => {
+                    eprintln!("unknown job {:?}", other);
+                    std::process::exit(3);
+                }
+            };
+            println!("JOB {}", v);
         }
         Some("case") => {
             // cvh case '<grammar json>' '<input>'  : print the model's and the parser's view of one case
